@@ -111,6 +111,36 @@ async fn run_case(addr: SocketAddr, certs: &Certs, t: &[&str], seed: u64) -> any
         if finish_err { " finish=err" } else { "" }))
 }
 
+/// `ppdup <batch> <k> <m> <j>`: a publisher takes k items, is duplicated, the duplicate takes m items and finishes, the
+/// original takes j more and finishes. What the subscriber yields, per publisher, in order: `a=0,1,.. b=0,1,.. errs=<e>`
+async fn run_dup(addr: SocketAddr, certs: &Certs, t: &[&str]) -> anyhow::Result<String> {
+    let (batch, k, m, j) = (t[1], t[2].parse::<usize>()?, t[3].parse::<usize>()?, t[4].parse::<usize>()?);
+    let topic = format!("/verif/dup{}", TOPIC.fetch_add(1, Ordering::SeqCst));
+    let client = client(addr, certs, BackoffStrategy::constant().with_max_attempts(0)).await?;
+    let mut sub = client.subscriber(&topic).with_decoder(StringCodec).open().await?;
+    tokio::time::sleep(Duration::from_millis(40)).await;
+    let mut pb = client.publisher(&topic).with_encoder(StringCodec);
+    if batch != "-" { let (sz, ms) = batch.split_once(':').unwrap(); pb = pb.with_batching(BatchConfig::new(sz.parse()?, Duration::from_millis(ms.parse()?))); }
+    let mut a = pb.open().await?;
+    for i in 0..k { a.send(format!("a{i}|")).await?; }
+    let mut b = a.duplicate().await?;
+    for i in 0..m { b.send(format!("b{i}|")).await?; }
+    b.finish().await?;
+    for i in k..k + j { a.send(format!("a{i}|")).await?; }
+    a.finish().await?;
+    let (mut ga, mut gb, mut errs) = (vec![], vec![], 0usize);
+    loop {
+        match tokio::time::timeout(Duration::from_millis(if ga.len() + gb.len() >= k + m + j { 80 } else { 400 }), sub.next()).await {
+            Err(_) | Ok(None) => break,
+            Ok(Some(Ok(v))) => { let idx = v[1..].trim_end_matches('|').to_string(); if v.starts_with('a') { ga.push(idx) } else { gb.push(idx) } }
+            Ok(Some(Err(_))) => { errs += 1; if errs > 5 { break; } }
+        }
+        if ga.len() + gb.len() > k + m + j + 8 { break; }
+    }
+    let show = |v: &Vec<String>| if v.is_empty() { "-".to_string() } else { v.join(",") };
+    Ok(format!("a={} b={} errs={errs}", show(&ga), show(&gb)))
+}
+
 /// the subscriber must yield exactly the items whose `send` returned Ok, in order
 fn judge(line: &str, n: usize, batch: &str, fin: bool) -> Result<(), String> {
     let mut parts = line.split(' ');
@@ -173,6 +203,10 @@ pub fn run(cfg: &Cfg) {
             }
         }
         cases.push("pp string - 3:60000 7 s n".into());
+        // duplicate(): before anything was sent, with a partial batch collected, right after a batch was framed, unbatched
+        for (b, k, m, j) in [("10:60000", 0, 2, 2), ("10:60000", 3, 1, 1), ("3:60000", 3, 2, 1), ("3:60000", 4, 0, 0), ("3:60000", 2, 5, 2), ("-", 2, 2, 1), ("4:0", 3, 1, 2)] {
+            cases.push(format!("ppdup {b} {k} {m} {j}"));
+        }
         // empty and one-byte messages, alone and in batches
         for (codec, algo) in [("string", "-"), ("bytes", "-"), ("bytes", "zstd:bal"), ("string", "gzip:bal"), ("bytes", "lz4:-")] {
             for b in ["-", "4:60000", "3:60000", "100:60000"] { cases.push(format!("pp {codec} {algo} {b} 7 E y")); }
@@ -231,6 +265,20 @@ pub fn run(cfg: &Cfg) {
     for c in &cases {
         let t: Vec<&str> = c.split(' ').collect();
         let n: usize = t[4].parse().unwrap();
+        if t[0] == "ppdup" {
+            out.stat("duplicate");
+            let (k, m, j): (usize, usize, usize) = (t[2].parse().unwrap(), t[3].parse().unwrap(), n);
+            let res = rt.block_on(async { tokio::time::timeout(Duration::from_secs(30), run_dup(addr, &certs, &t)).await });
+            let seq = |n: usize| if n == 0 { "-".to_string() } else { (0..n).map(|i| i.to_string()).collect::<Vec<_>>().join(",") };
+            let want = format!("a={} b={} errs=0", seq(k + j), seq(m));
+            let (imp, mon) = match res {
+                Err(_) => ("TIMEOUT".to_string(), Err("C03: the exchange did not complete within 30 s".to_string())),
+                Ok(Err(e)) => (format!("ERROR {}", format!("{e:?}").replace('\n', " ").chars().take(200).collect::<String>()), Err(format!("C03: client error {e}"))),
+                Ok(Ok(line)) => { let mon = if line == want { Ok(()) } else { Err(format!("C03: a publisher took {k} items, was duplicated (the duplicate took {m}) and took {j} more (batch {}): the subscriber yielded [{line}], not each accepted item once in its publisher's order", t[1])) }; (line, mon) }
+            };
+            out.case(c, &imp, mon);
+            continue;
+        }
         if t[0] == "ppx" {
             // extreme configuration: run it in a process of its own, so that an abort is an observation
             out.stat("isolated");
